@@ -10,6 +10,7 @@ import (
 	"sort"
 	"strings"
 	"sync"
+	"sync/atomic"
 	"time"
 
 	"cuelabs.dev/go/oci/ociregistry/ociauth"
@@ -263,6 +264,9 @@ var c19DirSeq struct {
 	n int
 }
 
+// c19BudgetHits counts documents whose iteration-order search was cut at its budget.
+var c19BudgetHits int64
+
 func c19Run(r *vcore.Run, d c19Doc, allOrders bool) (execs int64) {
 	c19DirSeq.Lock()
 	c19DirSeq.n++
@@ -312,8 +316,18 @@ func c19Run(r *vcore.Run, d c19Doc, allOrders bool) (execs int64) {
 		return ns
 	}
 	// DFS over iteration-order choices
+	// (budget: code that ranges over a map once per decode gives n! orders; code that does so once per
+	// lookup gives a product of those - the search is cut there and the run reported as not exhaustive)
+	budget := int64(15000)
 	var explore func(prefix []int)
 	explore = func(prefix []int) {
+		if execs >= budget {
+			if execs == budget {
+				atomic.AddInt64(&c19BudgetHits, 1)
+				execs++
+			}
+			return
+		}
 		ns := run(prefix)
 		for i := len(prefix); i < len(ns); i++ {
 			for alt := 1; alt < ns[i]; alt++ {
@@ -544,6 +558,7 @@ func c19SamePath(r *vcore.Run) (n int64) {
 }
 
 func c19Check(r *vcore.Run) vcore.Coverage {
+	atomic.StoreInt64(&c19BudgetHits, 0)
 	// instrumentation probe: a two-key document must produce more than one iteration order
 	probe := c19Doc{Entries: []c19Entry{{Key: "h", Kind: "userpass", ID: "1"}, {Key: "g", Kind: "userpass", ID: "2"}}, Lookups: []string{"h"}}
 	if n := c19Run(vcore.NewRun("C19", "quick", "exploration", "probe"), probe, true); n < 2 {
@@ -555,6 +570,17 @@ func c19Check(r *vcore.Run) vcore.Coverage {
 	// vsync.Choose is a global hook: documents are explored sequentially
 	for _, d := range orderDocs {
 		execs += c19Run(r, d, true)
+	}
+	// lookups in every order on one ConfigFile, among them URL-shaped names that are not keys of the file
+	// (a lookup leaves nothing behind that changes what a later lookup finds)
+	for i, d := range orderDocs {
+		if i%2 == 1 {
+			continue // the variant with the unrelated host's entries
+		}
+		dd := d
+		dd.Lookups = []string{"https://h/v0/", "h", "h:5000", "https://g/x"}
+		c19LookupOrder(r, dd)
+		execs += 24
 	}
 	for _, d := range precDocs {
 		execs += c19Run(r, d, false)
@@ -573,8 +599,9 @@ func c19Check(r *vcore.Run) vcore.Coverage {
 		"a password decoded from the auth field is compared after trimming NUL bytes (docker compatibility, as the quantifier's 'password without trailing NUL' class)",
 		"map iteration inside decodeConfigFile is owned through the vsync.MapIter hook installed by the build overlay: every order of the initial keys, and for entries inserted during the loop both 'visited at any later point' and 'never visited'",
 	}
-	return vcore.Coverage{Evaluations: execs, Nontrivial: int64(len(orderDocs) + len(precDocs)), Exhaustive: true,
-		Rule: fmt.Sprintf("%d documents with <= 3 keys for one host out of {h, https://h/v1, http://h, h/path, //h, https://h, https://h:5000/v1/, h:5000} (+ unrelated host) x entry kinds, each loaded through LoadWithEnv under EVERY map iteration order; %d precedence documents (14 entry kinds incl. malformed base64, no colon, empty user, NUL, colon in password, ambiguous) x credsStore x credHelpers x 5 helper behaviours (also per-host helper = default store, per-host entry naming no helper, helper for another host only) with every permutation of repeated lookups on one ConfigFile; evaluations = loads", len(orderDocs), len(precDocs))}
+	r.Notes["documents_cut_at_the_iteration_order_budget"] = atomic.LoadInt64(&c19BudgetHits)
+	return vcore.Coverage{Evaluations: execs, Nontrivial: int64(len(orderDocs) + len(precDocs)), Exhaustive: atomic.LoadInt64(&c19BudgetHits) == 0,
+		Rule: fmt.Sprintf("%d documents with <= 3 keys for one host out of {h, https://h/v1, http://h, h/path, //h, https://h, https://h:5000/v1/, h:5000} (+ unrelated host) x entry kinds, each loaded through LoadWithEnv under EVERY map iteration order; %d precedence documents (14 entry kinds incl. malformed base64, no colon, empty user, NUL, colon in password, ambiguous) x credsStore x credHelpers x 5 helper behaviours (also per-host helper = default store, per-host entry naming no helper, helper for another host only) with every permutation of repeated lookups on one ConfigFile; every key document also looked up in every order of {an absent URL-shaped name, h, h:5000, another absent one}; evaluations = loads", len(orderDocs), len(precDocs))}
 }
 
 func c19Replay(r *vcore.Run, sub string, raw json.RawMessage) {
